@@ -214,6 +214,33 @@ func c19(r *core.Run) {
 			r.Bad("E1", fname, what+"-error-handled", p.InstrPos(call), "the "+what+" error is never tested")
 		}
 	}
+	// the request payload is the encoder's output (or the empty-object literal for a nil request):
+	// the encoder is the only validation of the request value, so nothing else may be published
+	{
+		pay := pubCall.Common().Args[len(pubCall.Common().Args)-1]
+		for k, src := range phiSources(pay) {
+			good := false
+			for _, lf := range valueLeaves(src.V, nil, 0) {
+				v := core.Strip(lf.V)
+				if ex, ok := v.(*ssa.Extract); ok && ex.Index == 0 {
+					if mc, ok := ex.Tuple.(*ssa.Call); ok && core.CalleeName(mc) == "encoding/json.Marshal" {
+						good = true
+						continue
+					}
+				}
+				if _, ok := loadedGlobal(v); ok {
+					good = true
+					continue
+				}
+				if c, ok := v.(*ssa.Const); ok && c.IsNil() {
+					continue // the error result's companion value
+				}
+				good = false
+				break
+			}
+			r.Check(good, "E1", fname, fmt.Sprintf("request-payload#%d<-json.Marshal-or-literal", k), p.InstrPos(pubCall), "the published request is the encoder's output or the package-level empty request", "the published request payload is "+valDesc(src.V)+", which did not pass through json.Marshal: an unencodable / invalid request is sent and waited on instead of being reported as an internal error at once")
+		}
+	}
 	errEdge(marshal, 1, "marshal")
 	errEdge(subCall, 1, "subscribe")
 	errEdge(pubCall, -1, "publish")
@@ -238,6 +265,56 @@ func c19(r *core.Run) {
 			timeoutOK = true
 		}
 	}
+	// result-variable style: on the timer arm ErrTimeout is stored into the Error field of the
+	// response variable, the loop is left (no way back to the select) and that variable is returned
+	returnedCell := func(al ssa.Value) bool {
+		for _, ret := range core.Returns(fn) {
+			for _, rv := range ret.Results {
+				u, ok := rv.(*ssa.UnOp)
+				if !ok || u.Op != token.MUL {
+					continue
+				}
+				if u.X == al {
+					return true
+				}
+				// a function with a defer returns through a spill cell: *spill = *al; return *spill
+				if sp, ok := u.X.(*ssa.Alloc); ok && sp.Referrers() != nil {
+					for _, rf := range *sp.Referrers() {
+						if st, ok := rf.(*ssa.Store); ok && st.Addr == ssa.Value(sp) {
+							if l2, ok := st.Val.(*ssa.UnOp); ok && l2.Op == token.MUL && l2.X == al {
+								return true
+							}
+						}
+					}
+				}
+			}
+		}
+		return false
+	}
+	if !timeoutOK {
+		for _, b := range fn.Blocks {
+			for _, in := range b.Instrs {
+				st, ok := in.(*ssa.Store)
+				if !ok {
+					continue
+				}
+				fa, ok := st.Addr.(*ssa.FieldAddr)
+				if !ok {
+					continue
+				}
+				f, _ := core.FieldOf(fa)
+				g, isG := loadedGlobal(core.Strip(st.Val))
+				if f.Name != "Error" || !isG || g != "ErrTimeout" || !returnedCell(fa.X) || core.Reaches(st, sel) {
+					continue
+				}
+				for _, ed := range dominatingEdges(st) {
+					if condOnSelect(ed.If.Cond, sel) {
+						timeoutOK = true
+					}
+				}
+			}
+		}
+	}
 	r.Check(timeoutOK, "T1", fname, "timer-arm-returns-ErrTimeout", p.InstrPos(sel), "the deadline arm returns the timeout error", "the timer arm does not return res.ErrTimeout")
 	// response arm
 	parseOK := false
@@ -247,6 +324,14 @@ func c19(r *core.Run) {
 				// its block returns, and it is reached from the select's message arm
 				if _, ok := c.Block().Instrs[len(c.Block().Instrs)-1].(*ssa.Return); ok && core.Reaches(sel, c) {
 					parseOK = true
+				}
+				// result-variable style: stored into the returned response variable, then the loop is left
+				if c.Value() != nil && c.Value().Referrers() != nil && core.Reaches(sel, c) && !core.Reaches(c, sel) {
+					for _, rf := range *c.Value().Referrers() {
+						if st, ok := rf.(*ssa.Store); ok && st.Val == c.Value() && returnedCell(st.Addr) {
+							parseOK = true
+						}
+					}
 				}
 			}
 		}
@@ -350,7 +435,27 @@ func c19(r *core.Run) {
 		durOK := true
 		nAnn := 0
 		d := newTimer.Common().Args[0]
-		for _, dv := range paramArgs(p, d, 0) {
+		// the duration as seen in SendRequest: when the timer is (re)armed by a helper that also arms
+		// the initial timer, only the call sites inside the wait loop count
+		durVals := []ssa.Value{d}
+		if prm, ok := d.(*ssa.Parameter); ok && newTimer.Parent() != fn {
+			durVals = nil
+			idx := -1
+			for i, q := range prm.Parent().Params {
+				if q == prm {
+					idx = i
+				}
+			}
+			for _, cs := range p.CallersOf(prm.Parent()) {
+				if cs.Parent() == fn && core.Reaches(sel, cs) && idx >= 0 && idx < len(cs.Common().Args) {
+					durVals = append(durVals, cs.Common().Args[idx])
+				}
+			}
+			if len(durVals) == 0 {
+				durVals = paramArgs(p, d, 0)
+			}
+		}
+		for _, dv := range durVals {
 			for _, lf := range valueLeaves(dv, nil, 0) {
 				if isAnnounced(lf.V) {
 					nAnn++
@@ -364,7 +469,46 @@ func c19(r *core.Run) {
 		}
 		durOK = durOK && nAnn > 0
 		r.Check(len(extra) == 0 && durOK, "T1", fname, "pre-response-restarts-timer-unconditionally", p.InstrPos(newTimer), "on a parsed timeout pre-response a timer of exactly the announced milliseconds is installed, with no further condition", fmt.Sprintf("the deadline is not always restarted with the announced duration: extra conditions %v, duration-is-announced-ms=%v", extra, durOK))
-		r.Check(stop != nil && p.DominatesIn(fn, stop, newTimer), "T1", fname, "old-timer-stopped-before-replacement", posOf(p, stop), "the previous timer is stopped first", "the previous timer is not stopped before it is replaced")
+		stopped := stop != nil && p.DominatesIn(fn, stop, newTimer)
+		if !stopped && stop != nil {
+			// typestate: 1 = the running timer was stopped (or there is none: the nil edge of a test of
+			// the timer value); every wait on the select starts a new round
+			inl := map[*ssa.Function]bool{}
+			for _, h := range p.Helpers(fn) {
+				inl[h] = true
+			}
+			fl := &core.Flow{Fn: fn, Entry: core.StateSet(0).Add(0), Inline: func(cal *ssa.Function) bool { return inl[cal] && cal != fn }}
+			fl.Transfer = func(in ssa.Instruction, st int) core.StateSet {
+				if in == ssa.Instruction(sel) {
+					return core.StateSet(0).Add(0)
+				}
+				if c, ok := in.(ssa.CallInstruction); ok {
+					if cal := c.Common().StaticCallee(); cal != nil && cal.String() == "(*time.Timer).Stop" {
+						return core.StateSet(0).Add(1)
+					}
+				}
+				return core.StateSet(0).Add(st)
+			}
+			fl.BranchOn = func(cond ssa.Value, succ int, st int) (int, bool) {
+				ci := core.Cond(cond)
+				if ci.Kind == "nilcmp" && strings.HasSuffix(core.TypeName(ci.X.Type()), "time.Timer") {
+					truth := succ == 0
+					if ci.Negate {
+						truth = !truth
+					}
+					if (ci.Op == token.EQL) == truth {
+						return 1, true
+					}
+				}
+				return st, true
+			}
+			fl.Branch = func(iff *ssa.If, succ int, st int) (int, bool) { return fl.BranchOn(iff.Cond, succ, st) }
+			res := fl.Run()
+			if bs := res.Before[newTimer]; !bs.Empty() && bs.Only(1) {
+				stopped = true
+			}
+		}
+		r.Check(stopped, "T1", fname, "old-timer-stopped-before-replacement", posOf(p, stop), "the previous timer is stopped first", "the previous timer is not stopped before it is replaced")
 		// the new timer becomes the one selected on: the select's channel derives from a phi / cell
 		// including the new timer (possibly as the result of the helper that creates it)
 		usesNew := false
@@ -377,7 +521,16 @@ func c19(r *core.Run) {
 		// callbacks
 		cbOK := false
 		for _, c := range helperCalls(p, fn) {
-			if !core.IsDynamic(c) || len(c.Common().Args) != 1 || c.Common().Args[0] != d {
+			if !core.IsDynamic(c) || len(c.Common().Args) != 1 {
+				continue
+			}
+			isDur := false
+			for _, dv := range durVals {
+				if c.Common().Args[0] == dv {
+					isDur = true
+				}
+			}
+			if !isDur {
 				continue
 			}
 			u, ok := c.Common().Value.(*ssa.UnOp)
